@@ -15,6 +15,7 @@ package mut
 
 import (
 	"encoding/binary"
+	"math/bits"
 
 	"pgregory.net/rapid"
 )
@@ -47,16 +48,52 @@ func (o Opts) maxLen() int {
 	return MaxLen
 }
 
-func intn(t *rapid.T, label string, lo, hi int) int {
+var bitGen = rapid.Bool()
+
+// Uniform draws an integer uniformly from [0, n) out of single-bit draws. rapid's own integer
+// generators are deliberately biased towards small values and bounds, which would concentrate
+// positional mutations on the first bytes of an input and the choice of seeds, targets and mutation
+// kinds on the first list entries.
+func Uniform(t *rapid.T, label string, n int) int {
+	if n <= 1 {
+		return 0
+	}
+	k := bits.Len(uint(n - 1))
+	for try := 0; try < 32; try++ {
+		v := 0
+		for i := 0; i < k; i++ {
+			v <<= 1
+			if bitGen.Draw(t, label) {
+				v |= 1
+			}
+		}
+		if v < n {
+			return v
+		}
+	}
+	return n - 1
+}
+
+// Intn draws from [lo, hi]: uniformly three times out of four, with rapid's bias towards small
+// values and the bounds (headers, first elements, extreme lengths) otherwise.
+func Intn(t *rapid.T, label string, lo, hi int) int {
 	if hi <= lo {
 		return lo
 	}
-	return rapid.IntRange(lo, hi).Draw(t, label)
+	if Uniform(t, label+"?", 4) == 0 {
+		return rapid.IntRange(lo, hi).Draw(t, label)
+	}
+	return lo + Uniform(t, label, hi-lo+1)
 }
 
-func pick[T any](t *rapid.T, label string, xs []T) T {
-	return xs[intn(t, label, 0, len(xs)-1)]
+func intn(t *rapid.T, label string, lo, hi int) int { return Intn(t, label, lo, hi) }
+
+// Pick draws one element of xs uniformly.
+func Pick[T any](t *rapid.T, label string, xs []T) T {
+	return xs[Uniform(t, label, len(xs))]
 }
+
+func pick[T any](t *rapid.T, label string, xs []T) T { return Pick(t, label, xs) }
 
 var specialBytes = []byte{0x00, 0x01, 0x7f, 0x80, 0xff}
 
